@@ -34,3 +34,31 @@ CLAIMED = {
             CLIENT_NOTE + " The error-kind/errno/detail conversion tables of the two client libraries are compared through the C16/C17 checks.",
             "DESIGN.md section 6, C14"),
 }
+
+DAEMON_NOTE = ("Trusted: Coq kernel (+ the four standard-library axioms of Reals/Flocq where real-valued bounds are stated); Flocq binary64 = rustc f64 "
+               "(bit-for-bit correspondence on every run); chrony-candm's Reply::deserialize used to put raw wire words into Tracking; the cfg-gated wrappers "
+               "around the private daemon items (extract_bound_from_tracking, process_messages/ShmUpdater); the virtual clock; extraction (ExtrOcamlBasic only).")
+
+CLAIMED.update({
+    "C07": ("Coq proof (Flocq: four rounded operations, relative error accumulated with nra; ceil and saturating cast) + bit-exact differential correspondence of the "
+            "real extract_bound_from_tracking on crafted wire words + exact-rational oracle",
+            "Theorem C07_bound: for all wire words in the meaningful range (delay, dispersion >= 0, magnitudes < 1024 s) the bound is non-negative, at least "
+            "S*1e9*(1-4u) and below S*1e9*(1+5u)+1 with S = delay/2 + dispersion + |offset| exact and u = 2^-53; the strict 'never smaller' reading fails by "
+            "binary64 rounding only (known finding C07-fp, witness theorem C07_fp_witness); the PHC term is added verbatim (Updater model, checked through the real process_messages).",
+            DAEMON_NOTE, "DESIGN.md section 6, C07"),
+    "C08": ("Coq proof (induction over message histories with the declarative state 'last synchronised report + class of the latest outcome') + differential "
+            "correspondence of the real process_messages/ShmUpdater/FSM through the real ShmWriter and ShmReader",
+            "Theorem C08_history: for every finite message history the model publishes exactly one record per outcome and the k-th record equals spec_rec of the "
+            "history so far; C08_a_last_sync / C08_a_frozen / C08_b_void_after / C08_c_drift / C08_d_status / C08_fsm_next_is_input give clauses (a)-(d).",
+            DAEMON_NOTE, "DESIGN.md section 6, C08"),
+    "C09": ("Coq proof (same induction as C08; every record published before a first synchronised report is Unknown) + differential correspondence on histories "
+            "biased towards never-synchronised prefixes",
+            "Theorems C09_unknown_until_measured (every history without a synchronised report: all published records Unknown), C09_trusted_implies_measured, "
+            "C09_client_sees_unknown (composition with the client's status decay).",
+            DAEMON_NOTE, "DESIGN.md section 6, C09"),
+    "C10": ("Coq proof (case analysis on the classification; Flocq exactness of the chrony float conversion and of the multiplication by 8) + differential "
+            "correspondence under a virtual SystemTime at +-1 ns around the threshold and over leap codes",
+            "Theorems C10_synchronized_iff / C10_freerunning_iff / C10_unknown_iff for every leap code, interval word and age; C10_threshold: the threshold is "
+            "trunc(8*interval) whole seconds saturated into u64 (exact).",
+            DAEMON_NOTE, "DESIGN.md section 6, C10"),
+})
